@@ -219,6 +219,7 @@ class Executor:
         self.stop_after_findings = 0
         self._cstr_cache = {}
         self.hang_is_finding = False
+        self.no_addr_fork = False
         self.solver = z3.Solver()
         self.solver.set('timeout', 30000)
         self.sstack = []  # constraints currently pushed
@@ -447,6 +448,20 @@ class Executor:
             o1 = st.objs.get(k1)
             s2 = st.clone()
             s2.pc.append(outside)
+            if not (o1 is None or o1.freed or off1 + n > o1.size):
+                # the model points at never-written bytes inside an object; prefer a model that leaves the object
+                # altogether (visible to ASan) when one exists
+                oob = z3.Or(z3.ULT(addr, z3.BitVecVal(base, 64)), z3.UGT(addr, z3.BitVecVal(base + o.size - n, 64)))
+                m3 = self.check(st, oob)
+                if m3 is not None:
+                    mdl = m3
+                    s2.pc.append(oob)
+                    o1 = None
+                    a1 = m3.eval(addr, model_completion=True).as_long()
+                    o1 = st.objs.get(a1 >> SH)
+                    off1 = a1 & OFFMASK
+                    if o1 is not None and not o1.freed and off1 + n <= o1.size:
+                        o1 = None  # lands in another object: still out of bounds of the intended one
             if o1 is None or o1.freed or off1 + n > o1.size:
                 self.report(s2, 'mem', 'out-of-bounds symbolic %s in %s (obj %s size %s)' % (
                     'write' if write else 'read', self.where(st), o1.name if o1 else None, o1.size if o1 else None), mdl)
@@ -647,6 +662,48 @@ class Executor:
             s2.trace = (base, k)
             out.append((s2, k))
         self.stats['forks'] += len(vals) - 1
+        return out
+
+    FORK_ADDR_LIMIT = 24
+
+    def sym_mem(self, st, ins, addr, stored):
+        """load/store through a symbolic address: after the bounds/initialisation check, fork over the feasible
+        concrete addresses (formulas stay small); with too many candidates fall back to ite over the cells.
+        Returns None if `st` simply continues, else the list of successor states."""
+        if not is_sym(addr):
+            addr = int(addr)
+        kind, n = self.kind_of(ins.ty)
+        if is_sym(addr):
+            cands = self.sym_addr_candidates(st, addr, n, stored is not None)
+        if not is_sym(addr) or len(cands) > self.FORK_ADDR_LIMIT or self.no_addr_fork:
+            if stored is None:
+                st.frames[-1].regs[ins.dst] = self.load(st, addr, ins.ty)
+            else:
+                self.store(st, addr, ins.ty, stored[0])
+            return None
+        pairs = self.fork_values(st, addr, 'address', limit=self.FORK_ADDR_LIMIT + 1)
+        out = []
+        for s2, av in pairs:
+            try:
+                if stored is None:
+                    s2.frames[-1].regs[ins.dst] = self.load(s2, av, ins.ty)
+                else:
+                    self.store(s2, av, ins.ty, stored[0])
+            except Finding as f:
+                if self.replay is not None:
+                    raise
+                self.stats['paths'] += 1
+                try:
+                    mdl = self.check(s2)
+                except Finding:
+                    mdl = None
+                self.report(s2, f.kind, f.msg, mdl)
+                continue
+            out.append(s2)
+        if len(out) == 1 and out[0] is st:
+            return None
+        if not out:
+            raise PathEnd('pruned')
         return out
 
     def fork_call(self, st, ins, args, idxs, body):
@@ -1185,9 +1242,21 @@ class Executor:
             op = ins.op
             regs = fr.regs
             if op == 'load':
-                regs[ins.dst] = self.load(st, val(fr, ins.a), ins.ty)
+                a = val(fr, ins.a)
+                if type(a) is int:
+                    regs[ins.dst] = self.load(st, a, ins.ty)
+                else:
+                    out = self.sym_mem(st, ins, a, None)
+                    if out is not None:
+                        return out
             elif op == 'store':
-                self.store(st, val(fr, ins.b), ins.ty, val(fr, ins.a))
+                a = val(fr, ins.b)
+                if type(a) is int:
+                    self.store(st, a, ins.ty, val(fr, ins.a))
+                else:
+                    out = self.sym_mem(st, ins, a, (val(fr, ins.a),))
+                    if out is not None:
+                        return out
             elif op == 'getelementptr':
                 k = ins.c
                 if k is None:
